@@ -71,13 +71,27 @@ fn env_u64(name: &str) -> Option<u64> {
     std::env::var(name).ok().and_then(|s| s.trim().parse().ok())
 }
 
+thread_local! {
+    static CURRENT_INDEX: std::cell::Cell<u64> = const { std::cell::Cell::new(0) };
+}
+/// The run index whose scenario is being generated (generators may reserve index ranges for
+/// particular kinds of history; everything else about a scenario comes from its own PRNG).
+pub fn current_index() -> u64 {
+    CURRENT_INDEX.with(|c| c.get())
+}
+/// The scenario of run `index`: a function of (seed, property, index, tier).
+pub fn scenario_at(p: &HistProp, seed: u64, index: u64, tier: Tier) -> Scenario {
+    CURRENT_INDEX.with(|c| c.set(index));
+    let mut rng = Rng::new(coord::run_seed(seed, p.id, index));
+    (p.scenario)(&mut rng, tier)
+}
+
 /// Executed in a block child process.
 pub fn run_block(p: &HistProp, seed: u64, first: u64, count: u64, tier: Tier) -> BlockResult {
     let known = coord::known_findings(p.id);
     let mut br = BlockResult { first, count, ..Default::default() };
     for index in first..first + count {
-        let mut rng = Rng::new(coord::run_seed(seed, p.id, index));
-        let sc = (p.scenario)(&mut rng, tier);
+        let sc = scenario_at(p, seed, index, tier);
         let out = execute(&sc);
         let mut j = (p.judge)(&sc, &out.obs);
         let mut digest = out.digest;
@@ -239,8 +253,7 @@ pub fn minimise_and_report(p: &HistProp, seed: u64, tier: Tier, block_first: u64
     if !m.fails(&[failing.clone()])? {
         // it needs state left by earlier runs of its block: replay the block prefix
         for index in block_first..run_index {
-            let mut rng = Rng::new(coord::run_seed(seed, p.id, index));
-            prefix.push((p.scenario)(&mut rng, tier));
+            prefix.push(scenario_at(p, seed, index, tier));
         }
         let mut all = prefix.clone();
         all.push(failing.clone());
@@ -636,8 +649,7 @@ fn cross_process_pass(p: &HistProp, seed: u64, tier: Tier, n: u64, same_seed_onl
                     break;
                 }
                 let index = indices[k];
-                let mut rng = Rng::new(coord::run_seed(seed, p.id, index));
-                let sc = (p.scenario)(&mut rng, tier);
+                let sc = scenario_at(p, seed, index, tier);
                 // alternate: same hash seed in two processes / different hash seeds
                 let variants = variants_of(&sc, same_seed_only.is_some() || index % 3 == 0);
                 let file = scratch.join(format!("{}-xproc-{}-{}.json", p.id, std::process::id(), index));
@@ -658,8 +670,7 @@ fn cross_process_pass(p: &HistProp, seed: u64, tier: Tier, n: u64, same_seed_onl
     found.sort_by_key(|(i, _)| *i);
     let Some((index, v)) = found.into_iter().next() else { return Ok((indices.len() as u64, None)) };
     // minimise: drop operations (from all variants alike) while the processes still disagree
-    let mut rng = Rng::new(coord::run_seed(seed, p.id, index));
-    let sc = (p.scenario)(&mut rng, tier);
+    let sc = scenario_at(p, seed, index, tier);
     let same = same_seed_only.is_some() || index % 3 == 0;
     let cand_file = scratch.join(format!("{}-xproc-min-{}.json", p.id, std::process::id()));
     let mut err = None;
